@@ -2,23 +2,31 @@
 
 Oracle: for log-normal strength (median m_S, log10-scatter s_S) and log-normal load (median m_L, log10-scatter s_L)
 
-    P_f = P(load > strength) = Phi(z),   z = (lg m_L - lg m_S) / sqrt(s_L^2 + s_S^2)
+    P_f = P(load > strength) = Phi(z),   z = (lg m_L - lg m_S) / s,   s = sqrt(s_L^2 + s_S^2)
 
-evaluated in the harness with ``math.erfc`` (accurate to a few ulp *relative* in both tails; no scipy.stats,
-which is what the code under test uses).
+evaluated in the harness with ``math.log10``, ``math.hypot`` and ``math.erfc`` (no scipy.stats, which is what the code
+under test uses).
 
-Tolerance.  The quantifier of the property reaches from P_f = 1e-12 to 1 - 1e-12.  An absolute tolerance at the
-level of the quadrature's nominal accuracy (1.5e-8) would make the statement empty below 1e-8: returning 0
-for 1e-12 would "equal" it.  The only reading under which the quantifier range means something is a tolerance
-relative to the smaller of P_f and 1 - P_f:
+Tolerance.  The quantifier of the property reaches from P_f = 1e-12 to 1 - 1e-12, so the comparison cannot carry an
+absolute floor that is visible at 1e-12: returning 0 (or a value with three good digits lost) for 1e-12 would "equal" it.
+Since F07 is repaired, ``pf_norm_load`` without limits is a closed form, and the tolerance is what a correct double
+precision evaluation of Phi(z) guarantees - the rounding of z itself included:
 
-    |got - Phi(z)| <= RTOL * min(Phi(z), 1 - Phi(z)) + 16 eps ,        RTOL = 1e-3
+  * z.  lg m is returned with an error of at most 1 ulp, i.e. eps |lg m|; the difference of the two logarithms, the root of
+    the sum of squares and the quotient add at most 3 eps |z|.  The harness computes its own z from the same floats with the
+    same kind of error, so the two z can differ by   dz = 2 eps (|lg m_L| + |lg m_S|) / s + 8 eps |z|
+    (the second term also covers the scaling of the argument by 1/sqrt(2) inside both cdf implementations).
+  * Phi.  |Phi(z + dz) - Phi(z)| <= phi(z) dz (1 + |z| dz); both cdf evaluations (erfc based) are accurate to a few ulp of
+    the *returned value*: 16 eps P together.  For P near 1 this is 16 eps absolute (a float near 1 cannot do better), for the
+    lower tail it is relative to P - there is deliberately no absolute floor.
 
-RTOL = 1e-3 is three significant digits of the failure (or survival) probability, the precision with which the
-project itself prints these numbers ('%.2e' in demos/lifetime_calc.ipynb); where the implementation works it is
-five to ten orders better than that, so RTOL is not what keeps the check quiet.  The absolute floor 16 eps = 3.6e-15
-is rounding only: near 1 the result is a float with spacing 1.1e-16 obtained from a sum of 21..~1000 products, so a
-few ulp of 1.0 cannot be avoided; at the edge of the domain (1 - P_f = 1e-12) the floor is 0.36 % of 1 - P_f.
+      TOL(z) = 1.01 phi(z) dz + 16 eps Phi(z)
+
+    Examples: s = 0.1, medians ~1e3, P = 1e-12: TOL = 1.4e-24 (1.4e-12 relative).  s = 1e-4 (worst conditioning generated),
+    P = 1e-12: 2.6e-10 relative.  A subtraction from 1 in the lower tail (absolute error ~1e-16) exceeds TOL for P < 1e-2.
+
+The former bound 1e-3 * min(P, 1-P) + 16 eps (three significant digits, what numerical integration can be asked for) applies
+only where explicit integration limits force the quadrature; that path is not part of the statement and is not generated.
 """
 
 import math
@@ -29,19 +37,20 @@ from hypothesis import strategies as st
 from ..core import Violation, subcheck, nontrivial_rule, assumptions
 
 PROP = "C15"
-RTOL = 1e-3
 EPS = 2.220446049250313e-16
-FLOOR = 16 * EPS
 ZMAX = 7.034          # Phi(-7.034) = 1.0e-12: the quantifier's range of failure probabilities
 
 nontrivial_rule(PROP, "Non-trivial: load scatter > 0 and (P_f outside [1e-4, 1-1e-4] or scatter ratio s_L/s_S outside [1/30, 30]); "
-                      "vanishing-scatter clause: P_f outside [1e-4, 1-1e-4]; for the arbitrary-density clause: the rigorous "
+                      "vanishing-scatter clause: P_f outside [1e-4, 1-1e-4]; vector clause: >= 2 elements with distinct scatters; "
+                      "for the arbitrary-density clause: the rigorous "
                       "trapezoid bound of the finest grid is below 1 % of min(P_f, 1-P_f), i.e. the clause can tell a wrong value from a right one.")
 assumptions(PROP, [
-    "scalar arguments (quad cannot integrate array-valued integrands; the vectorised docstring of pf_norm_load is not exercised)",
-    "default integration limits; the optional lower_limit/upper_limit arguments are not part of the statement",
-    "tolerance: |dP| <= 1e-3 * min(P, 1-P) + 16 eps (relative to the smaller tail; see module docstring)",
+    "default integration limits (closed form since the repair of F07); the optional lower_limit/upper_limit arguments (numerical "
+    "integration) are not part of the statement and are not generated",
+    "tolerance TOL(z) = 1.01 phi(z) [2 eps (|lg m_L| + |lg m_S|)/s + 8 eps |z|] + 16 eps Phi(z): double-precision evaluation of Phi(z) "
+    "including the conditioning of z; relative in the lower tail, no absolute floor (see module docstring)",
     "load scatter vanishes as s_L = s_S * 10^-k, k <= 40 (s_L = 0 itself is outside: the density is not defined)",
+    "vector calls use numpy float arrays (lists fail on the unchanged tree in sc**2 and are not generated); shapes (N,) against (N,) or scalars",
     "pf_arbitrary_load gets log10 load values and the density over log10 load (as in the repository's own test)",
 ])
 
@@ -50,15 +59,10 @@ def Phi(z):
     return 0.5 * math.erfc(-z / math.sqrt(2.0))
 
 
-def tol(p, q):
-    return RTOL * min(p, q) + FLOOR
-
-
-def cond(z, s, *lgs):
-    """Conditioning of the oracle itself: lg(median) carries a rounding error of ~1 ulp, which is divided by the
-    (possibly tiny) scatter; the induced uncertainty of Phi(z) is phi(z) * dz and is not the code's fault."""
-    dz = 4 * EPS * max([1.0] + [abs(v) for v in lgs]) / s
-    return math.exp(-0.5 * z * z) / math.sqrt(2 * math.pi) * dz
+def tol(z, s, lgL, lgS):
+    """TOL(z) of the module docstring."""
+    dz = 2 * EPS * (abs(lgL) + abs(lgS)) / s + 8 * EPS * abs(z)
+    return 1.01 * math.exp(-0.5 * z * z) / math.sqrt(2 * math.pi) * dz * (1 + abs(z) * dz) + 16 * EPS * Phi(z)
 
 
 def _fp():
@@ -69,22 +73,10 @@ def _fp():
 R_TAIL, R_BULK, P_TAIL = 0.1, 1.5, 1.5e-5
 
 
-def f07_class(r, p, q):
-    """Input class attributable to F07: ``integrate.quad`` over the fixed interval +-16 s_L with the default absolute
-    stop criterion epsabs = 1.49e-8.  With r = s_L/s_S and s = hypot(s_L, s_S):
-
-    (a) r >= 1.5: the integrand pdf_L * cdf_S is a bump of width s_L s_S / s (a step of width s_S for large r) centred
-        |z| s_L^2/s away from the load median.  It is narrower than the spacing of the 21 Gauss-Kronrod nodes of the first
-        panel (0.15 * 16 s_L = 2.4 s_L); when it sits between two nodes both rules see ~0, the error estimate is below
-        epsabs and quad returns after 21 evaluations (witness: r = 4.5, z = -3.08, P = 1.04e-3 returned as 2.8e-5).
-    (b) min(P, 1-P) < 1.5e-5 and r >= 0.1: the whole integrand (or its deviation from the load density) is below
-        epsabs / RTOL, so the error estimate passes whatever the panel saw.  For r < 0.1 the integrand is a constant
-        times the load density on the whole interval and the first panel is accurate in relative terms.
-
-    The result depends on (r, z) only (the integrand is scale invariant); a 600 000-point scan of the plane
-    -1.2 <= lg r <= 4, |z| <= 7.034 puts the first error > 1e-6 at r = 1.8 (bulk) and r = 0.17 (tails); outside this
-    class the largest error seen is 3.9e-7 * min(P, 1-P), 2500 times below RTOL.
-    """
+def former_f07_class(r, p, q):
+    """The input class in which the quadrature-based implementation failed (finding F07, repaired): s_L/s_S >= 1.5 (integrand
+    bump between the Gauss-Kronrod nodes) or a tail below 1.5e-5 with s_L/s_S >= 0.1 (absolute stop criterion).  Only a label
+    now: the histogram shows that the region is exercised."""
     return (min(p, q) < P_TAIL and r >= R_TAIL) or r >= R_BULK
 
 
@@ -93,20 +85,20 @@ _lg = lambda lo, hi: st.floats(math.log10(lo), math.log10(hi), allow_nan=False).
 
 _z = st.one_of(
     st.floats(-ZMAX, ZMAX, allow_nan=False),
-    st.floats(-4.17, -3.0), st.floats(3.0, 4.17),            # tails still promised by the quadrature's own epsabs
+    st.floats(-4.17, -3.0), st.floats(3.0, 4.17),
     st.floats(-ZMAX, -4.17), st.floats(4.17, ZMAX),          # deep tails
+    st.floats(-ZMAX, -5.5),                                  # P_f < 2e-8: where a lost absolute 1e-16 shows
     st.floats(-0.05, 0.05),
     st.sampled_from([0.0, -ZMAX, ZMAX, 0.01, -0.01]),
 )
 
 
 @st.composite
-def _pairs(draw, tier):
-    sm = draw(_lg(1.0, 1e4))
-    mode = draw(st.sampled_from(["free", "ratio", "near_one", "near_one"]))
-    if mode == "near_one":          # load not wider than 1.5 x the strength scatter: the region behind the known class
+def _scatters(draw):
+    mode = draw(st.sampled_from(["free", "ratio", "near_one"]))
+    if mode == "near_one":
         sS = draw(_lg(1.5e-4, 2.0))
-        sL = sS * 10 ** draw(st.floats(-1.5, math.log10(1.5)))
+        sL = sS * 10 ** draw(st.floats(-1.5, 1.5))
         sL = min(max(sL, 1e-4), 2.0)
     elif mode == "free":
         sS = draw(_lg(1e-4, 2.0))
@@ -116,6 +108,13 @@ def _pairs(draw, tier):
         g = draw(_lg(10 ** (-4 + abs(lr) / 2), 2.0 * 10 ** (-abs(lr) / 2)))     # both scatters stay inside [1e-4, 2]
         sS, sL = g * 10 ** (-lr / 2), g * 10 ** (lr / 2)
         sS, sL = min(max(sS, 1e-4), 2.0), min(max(sL, 1e-4), 2.0)
+    return sS, sL
+
+
+@st.composite
+def _pairs(draw, tier):
+    sm = draw(_lg(1.0, 1e4))
+    sS, sL = draw(_scatters())
     z = draw(_z)
     return {"strength_median": sm, "strength_std": sS, "load_std": sL, "z": z}
 
@@ -125,41 +124,40 @@ def _load_median(sm, sS, sL, z):
 
 
 def _exact(sm, sS, lm, sL):
-    """Phi(z) and 1 - Phi(z) from the floats actually handed to pyLife."""
-    z = (math.log10(lm) - math.log10(sm)) / math.hypot(sS, sL)
-    return z, Phi(z), Phi(-z)
+    """z, Phi(z), 1 - Phi(z) and TOL(z) from the floats actually handed to pyLife."""
+    lgL, lgS, s = math.log10(lm), math.log10(sm), math.hypot(sS, sL)
+    z = (lgL - lgS) / s
+    return z, Phi(z), Phi(-z), tol(z, s, lgL, lgS)
 
 
 def _labels(ctx, r, p, q, z):
     ctx.label("ratio<1/30" if r < 1 / 30 else "ratio>30" if r > 30 else "ratio~1")
     m = min(p, q)
     ctx.label("tail<1e-9" if m < 1e-9 else "tail<1e-5" if m < 1.5e-5 else "tail<1e-4" if m < 1e-4 else "bulk")
+    if former_f07_class(r, p, q):
+        ctx.label("former_F07_class")
     if r > 30 or r < 1 / 30 or m < 1e-4:
         ctx.nontrivial()
 
 
 # ------------------------------------------------------------------ clause 1 + bounds
 @subcheck(PROP, "norm_load_closed_form", strategy=_pairs, quick=1600, thorough=60000,
-          doc="pf_norm_load == Phi(z) relative to min(P,1-P) (RTOL 1e-3 + 16 eps); result in [0,1]")
+          doc="pf_norm_load == Phi(z) within TOL(z) (double-precision evaluation incl. conditioning of z, relative in the lower tail); result in [0,1]")
 def norm_load_closed_form(case, ctx):
     sm, sS, sL = case["strength_median"], case["strength_std"], case["load_std"]
     lm = _load_median(sm, sS, sL, case["z"])
-    z, p, q = _exact(sm, sS, lm, sL)
+    z, p, q, t = _exact(sm, sS, lm, sL)
     r = sL / sS
     _labels(ctx, r, p, q, z)
     got = float(_fp()(sm, sS).pf_norm_load(lm, sL))
     if not (0.0 <= got <= 1.0):          # also catches NaN
         raise Violation("pf_norm_load(%r, %r) with strength (%r, %r) = %r is not in [0, 1] (Phi(z) = %r)"
                         % (lm, sL, sm, sS, got, p), bucket="norm:outside_unit_interval")
-    if f07_class(r, p, q):
-        ctx.label("in_F07_class")
-        if ctx.known("F07"):
-            return
     err = abs(got - p)
-    if err > tol(p, q) + cond(z, math.hypot(sS, sL), math.log10(lm), math.log10(sm)):
-        which = "tail" if min(p, q) < P_TAIL else "narrow_bump" if r >= R_BULK else "bulk"
-        raise Violation("pf_norm_load = %r, Phi(z) = %r (1-Phi = %r, z = %.6g, s_L/s_S = %.4g): |dP| = %.3g = %.3g * min(P,1-P), allowed %.3g"
-                        % (got, p, q, z, r, err, err / min(p, q), tol(p, q)), bucket="norm:closed_form:" + which)
+    if err > t:
+        which = "lower_tail" if p < P_TAIL else "upper_tail" if q < P_TAIL else "bulk"
+        raise Violation("pf_norm_load = %r, Phi(z) = %r (1-Phi = %r, z = %.6g, s_L/s_S = %.4g): |dP| = %.3g = %.3g * P = %.3g * (1-P), allowed %.3g"
+                        % (got, p, q, z, r, err, err / p, err / q, t), bucket="norm:closed_form:" + which)
 
 
 # ------------------------------------------------------------------ clause 2: vanishing load scatter, pf_simple_load
@@ -171,41 +169,38 @@ def _vanishing(draw, tier):
 
 
 @subcheck(PROP, "vanishing_load_scatter", strategy=_vanishing, quick=480, thorough=16000,
-          doc="pf_simple_load == Phi((lg L - lg S)/s_S); pf_norm_load(s_L = s_S 10^-k) -> pf_simple_load within the analytic gap + tolerance")
+          doc="pf_simple_load == Phi((lg L - lg S)/s_S) within TOL; pf_norm_load(s_L = s_S 10^-k) -> pf_simple_load within the analytic gap + TOL")
 def vanishing_load_scatter(case, ctx):
     sm, sS = case["strength_median"], case["strength_std"]
     lm = _load_median(sm, sS, 0.0, case["z"])
     fp = _fp()(sm, sS)
-    zs = (math.log10(lm) - math.log10(sm)) / sS
-    ps, qs = Phi(zs), Phi(-zs)
+    zs, ps, qs, ts = _exact(sm, sS, lm, 0.0)
     simple = float(fp.pf_simple_load(lm))
-    # pf_simple_load is one cdf evaluation: 64 ulp relative to the smaller tail, plus rounding of a value near 1,
-    # plus the conditioning of z = (lg L - lg S) / s_S for tiny s_S (both sides compute lg with ~1 ulp error)
-    if not (0.0 <= simple <= 1.0) or abs(simple - ps) > 64 * EPS * min(ps, qs) + 4 * EPS + cond(zs, sS, math.log10(lm), math.log10(sm)):
-        raise Violation("pf_simple_load(%r) with strength (%r, %r) = %r, Phi(z) = %r" % (lm, sm, sS, simple, ps), bucket="simple:closed_form")
+    if not (0.0 <= simple <= 1.0) or abs(simple - ps) > ts:
+        raise Violation("pf_simple_load(%r) with strength (%r, %r) = %r, Phi(z) = %r (allowed %.3g)" % (lm, sm, sS, simple, ps, ts), bucket="simple:closed_form")
     vec = np.asarray(fp.pf_simple_load(np.array([lm, sm, 2 * lm])))
-    if vec.shape != (3,) or vec[0] != simple or vec[1] != 0.5:
+    if vec.shape != (3,) or abs(vec[0] - simple) > 4 * EPS * simple or vec[1] != 0.5:
         raise Violation("pf_simple_load on an array %r differs from scalar calls (%r, 0.5, ..)" % (vec.tolist(), simple), bucket="simple:vector")
     if min(ps, qs) < 1e-4:
         ctx.nontrivial()
     ctx.label("tail" if min(ps, qs) < 1e-4 else "bulk")
-    prev_gap = None
+    done = False
     for k in case["k"]:
         sL = (10.0 ** -k) if case["absolute_tiny"] else sS * 10.0 ** -k
         r = sL / sS
         if r >= R_TAIL:         # (0.1, ..) belongs to the closed-form sub-check
             continue
-        z, p, q = _exact(sm, sS, lm, sL)
+        z, p, q, t = _exact(sm, sS, lm, sL)
         got = float(fp.pf_norm_load(lm, sL))
         if not (0.0 <= got <= 1.0):
             raise Violation("pf_norm_load(%r, %r) = %r not in [0,1]" % (lm, sL, got), bucket="vanish:outside_unit_interval")
         gap = abs(p - ps)                      # what the exact overlap differs from the deterministic-load value
-        allowed = gap + tol(p, q) + cond(z, sS, math.log10(lm), math.log10(sm))
+        allowed = gap + t + ts
         if abs(got - simple) > allowed:
             raise Violation("s_L = %r (s_L/s_S = %.3g): pf_norm_load = %r, pf_simple_load = %r, differ by %.3g, exact values differ by %.3g, allowed %.3g"
                             % (sL, r, got, simple, abs(got - simple), gap, allowed), bucket="vanish:not_converging")
-        prev_gap = gap
-    if prev_gap is None:
+        done = True
+    if not done:
         ctx.skip("no s_L with s_L/s_S < 0.1 in the case")
 
 
@@ -219,8 +214,8 @@ def _mono(draw, tier):
 
 
 @subcheck(PROP, "monotone", strategy=_mono, quick=480, thorough=16000,
-          doc="P_f does not decrease with the load median, does not increase with the strength median (within the tolerance), "
-              "and strictly changes when the exact values differ by more than twice the tolerance")
+          doc="P_f does not decrease with the load median, does not increase with the strength median (within TOL of both points), "
+              "and strictly changes when the exact values differ by more than twice that")
 def monotone(case, ctx):
     sm, sS, sL = case["strength_median"], case["strength_std"], case["load_std"]
     s = math.hypot(sS, sL)
@@ -235,26 +230,90 @@ def monotone(case, ctx):
         lo = (10.0 ** (math.log10(lm) - z1 * s), lm)
         hi = (sm, lm)
     (sm1, lm1), (sm2, lm2) = lo, hi
-    _, p1, q1 = _exact(sm1, sS, lm1, sL)
-    _, p2, q2 = _exact(sm2, sS, lm2, sL)
+    _, p1, q1, t1 = _exact(sm1, sS, lm1, sL)
+    _, p2, q2, t2 = _exact(sm2, sS, lm2, sL)
     if not p2 >= p1:
         ctx.skip("rounding of the medians reversed the order")
     _labels(ctx, r, p1, q1, z1)
     ctx.label(case["vary"])
-    if (f07_class(r, p1, q1) or f07_class(r, p2, q2)):
-        ctx.label("in_F07_class")
-        if ctx.known("F07"):
-            return
     FP = _fp()
     g1 = float(FP(sm1, sS).pf_norm_load(lm1, sL))
     g2 = float(FP(sm2, sS).pf_norm_load(lm2, sL))
-    t = tol(p1, q1) + tol(p2, q2)
+    t = t1 + t2
     if g2 < g1 - t:
         raise Violation("P_f decreases from %r to %r although %s moves towards failure (exact %r -> %r; s_L/s_S = %.3g)"
                         % (g1, g2, case["vary"], p1, p2, r), bucket="monotone:reversed:" + case["vary"])
     if p2 - p1 > 2 * t and not g2 > g1:
         raise Violation("P_f stays at %r -> %r although the exact value rises %r -> %r (%s; s_L/s_S = %.3g)"
                         % (g1, g2, p1, p2, case["vary"], r), bucket="monotone:flat:" + case["vary"])
+
+
+# ------------------------------------------------------------------ clause 1 for several points at once
+@st.composite
+def _vector(draw, tier):
+    n = draw(st.integers(2, 6))
+    pts = []
+    for _ in range(n):
+        sS, sL = draw(_scatters())
+        pts.append([draw(_lg(1.0, 1e4)), sS, sL, draw(_z)])
+    return {"points": pts, "form": draw(st.sampled_from(["all_arrays", "all_arrays", "scalar_load_std", "scalar_strength", "scalar_load"]))}
+
+
+@subcheck(PROP, "vector_call", strategy=_vector, quick=800, thorough=25000,
+          doc="array-valued medians/scatters (docstring: array_like, shape (N,)): every element of the vectorised pf_norm_load / pf_simple_load "
+              "equals Phi(z_i) within TOL(z_i) and the scalar call for that point; scalars broadcast")
+def vector_call(case, ctx):
+    pts = [list(q) for q in case["points"]]
+    form = case["form"]
+    # broadcast forms: the scalar argument takes the value of point 0 for every point
+    for q in pts:
+        if form == "scalar_load_std":
+            q[2] = pts[0][2]
+        elif form == "scalar_strength":
+            q[0], q[1] = pts[0][0], pts[0][1]
+    lms = [_load_median(sm, sS, sL, z) for sm, sS, sL, z in pts]
+    if form == "scalar_load":
+        lms = [lms[0]] * len(pts)
+        for q in pts:
+            q[2] = pts[0][2]
+    n = len(pts)
+    ctx.label(form, "n=%d" % n)
+    arr = lambda i: np.array([q[i] for q in pts], dtype=float)
+    FP = _fp()
+    if form == "scalar_strength":
+        fp = FP(pts[0][0], pts[0][1])
+    else:
+        fp = FP(arr(0), arr(1))
+    if form == "scalar_load":
+        got = fp.pf_norm_load(lms[0], pts[0][2])
+        simple = fp.pf_simple_load(lms[0])
+    elif form == "scalar_load_std":
+        got = fp.pf_norm_load(np.array(lms), pts[0][2])
+        simple = fp.pf_simple_load(np.array(lms))
+    else:
+        got = fp.pf_norm_load(np.array(lms), arr(2))
+        simple = fp.pf_simple_load(np.array(lms))
+    got, simple = np.asarray(got, dtype=float), np.asarray(simple, dtype=float)
+    if got.shape != (n,) or simple.shape != (n,):
+        raise Violation("vectorised call (%s) for %d points returns shapes %r / %r" % (form, n, got.shape, simple.shape), bucket="vector:shape")
+    if len(set((q[1], q[2]) for q in pts)) >= 2:
+        ctx.nontrivial()
+    for i, ((sm, sS, sL, _), lm) in enumerate(zip(pts, lms)):
+        z, p, q, t = _exact(sm, sS, lm, sL)
+        one = float(FP(sm, sS).pf_norm_load(lm, sL))
+        if abs(z) > ZMAX:       # broadcast forms can leave the quantifier's range of probabilities: only the bounds and the scalar call
+            ctx.label("element_outside_1e-12_range")
+            if not (0.0 <= got[i] <= 1.0) or abs(got[i] - one) > 16 * EPS * one:
+                raise Violation("vectorised pf_norm_load (%s), element %d of %d: %r, scalar call %r (z = %.4g)" % (form, i, n, float(got[i]), one, z),
+                                bucket="vector:norm_far:" + form)
+            continue
+        if not (0.0 <= got[i] <= 1.0) or abs(got[i] - p) > t or abs(got[i] - one) > t:
+            raise Violation("vectorised pf_norm_load (%s), element %d of %d: %r, scalar call %r, Phi(z) = %r (strength %r/%r, load %r/%r; allowed %.3g)"
+                            % (form, i, n, float(got[i]), one, p, sm, sS, lm, sL, t), bucket="vector:norm:" + form)
+        zs, ps, qs, ts = _exact(sm, sS, lm, 0.0)
+        if abs(zs) <= ZMAX and abs(simple[i] - ps) > ts:
+            raise Violation("vectorised pf_simple_load (%s), element %d of %d: %r, Phi(z) = %r (strength %r/%r, load %r)"
+                            % (form, i, n, float(simple[i]), ps, sm, sS, lm), bucket="vector:simple:" + form)
 
 
 # ------------------------------------------------------------------ clause 4: arbitrary density converges
@@ -305,7 +364,7 @@ def _second_derivative_max(a, b, muL, sL, muS, sS):
 def arbitrary_load_converges(case, ctx):
     sm, sS, sL = case["strength_median"], case["strength_std"], case["load_std"]
     lm = _load_median(sm, sS, sL, case["z"])
-    z, p, q = _exact(sm, sS, lm, sL)
+    z, p, q, _ = _exact(sm, sS, lm, sL)
     muL, muS = math.log10(lm), math.log10(sm)
     hw = case["half_width_sigmas"]
     a, b = muL - hw * sL, muL + hw * sL
